@@ -521,12 +521,15 @@ pub fn c01(ctx: &mut Ctx) -> (u64, String) {
     let depth = if ctx.thorough() { 4 } else { 3 };
     stream_tree::<ScancodeSet2>(ctx, "tree:ScancodeSet2", depth);
     stream_tree::<Keyboard<Echo, ScancodeSet2>>(ctx, "tree:Keyboard::add_byte(Set2)", if ctx.thorough() { 3 } else { 2 });
+    crate::props::tlaconf::set2_conformance(ctx);
     pump_report::<ScancodeSet2>(ctx, "pump:ScancodeSet2", 2, 300, 0);
     if ctx.thorough() {
         pump_report::<ScancodeSet2>(ctx, "pump:ScancodeSet2 (3-byte words)", 3, 12, 0);
         pump_report::<Keyboard<Echo, ScancodeSet2>>(ctx, "pump:Keyboard::add_byte(Set2)", 2, 300, 0);
     }
     readme_note(ctx);
+    ctx.sample_run("set2", &["byte:E0", "byte:F0", "byte:70", "byte:E1", "byte:14", "byte:77", "byte:AA", "byte:E0", "byte:E0"]);
+    ctx.sample_run("kb:echo-0:set2:Map", &["byte:F0", "byte:1C", "byte:02"]);
     ctx.sample(json!({"stream": ["E0", "F0", "70"], "reference": "Ok(None), Ok(None), Ok(Insert Up)"}));
     ctx.sample(json!({"stream": ["E1", "14", "77"], "reference": "Ok(None), Ok(RControl2 Down), Ok(NumpadLock Down)"}));
     ctx.sample(json!({"stream": ["AA", "E0", "E0"], "reference": "Ok(PowerOnTestOk SingleShot), Ok(None), Err(UnknownKeyCode)"}));
@@ -546,12 +549,15 @@ pub fn c02(ctx: &mut Ctx) -> (u64, String) {
     let depth = if ctx.thorough() { 4 } else { 3 };
     stream_tree::<ScancodeSet1>(ctx, "tree:ScancodeSet1", depth);
     stream_tree::<Keyboard<Echo, ScancodeSet1>>(ctx, "tree:Keyboard::add_byte(Set1)", if ctx.thorough() { 3 } else { 2 });
+    crate::props::tlaconf::set1_conformance(ctx);
     pump_report::<ScancodeSet1>(ctx, "pump:ScancodeSet1", 2, 300, 0);
     if ctx.thorough() {
         pump_report::<ScancodeSet1>(ctx, "pump:ScancodeSet1 (3-byte words)", 3, 12, 0);
         pump_report::<Keyboard<Echo, ScancodeSet1>>(ctx, "pump:Keyboard::add_byte(Set1)", 2, 300, 0);
     }
     readme_note(ctx);
+    ctx.sample_run("set1", &["byte:E0", "byte:1C", "byte:9C", "byte:70", "byte:F0", "byte:E1", "byte:1D", "byte:55"]);
+    ctx.sample_run("kb:echo-0:set1:Map", &["byte:E0", "byte:5D", "byte:E0", "byte:E0"]);
     ctx.sample(json!({"stream": ["E0", "1C", "9C"], "reference": "Ok(None), Ok(NumpadEnter Down), Ok(Return Up)"}));
     ctx.sample(json!({"stream": ["70", "F0"], "reference": "Ok(Oem11 Down), Ok(Oem11 Up)"}));
     (
@@ -911,12 +917,16 @@ pub fn c07(ctx: &mut Ctx) -> (u64, String) {
     let depth = if ctx.thorough() { 4 } else { 3 };
     c07_tree::<ScancodeSet2>(ctx, "difftree:ScancodeSet2", depth, 2);
     c07_tree::<ScancodeSet1>(ctx, "difftree:ScancodeSet1", depth, 1);
+    crate::props::tlaconf::set2_conformance(ctx);
+    crate::props::tlaconf::set1_conformance(ctx);
     pump_report::<ScancodeSet2>(ctx, "pump-resync:ScancodeSet2", 2, 300, 1);
     pump_report::<ScancodeSet1>(ctx, "pump-resync:ScancodeSet1", 2, 300, 1);
     if ctx.thorough() {
         pump_report::<ScancodeSet2>(ctx, "pump-resync:ScancodeSet2 (3-byte words)", 3, 12, 1);
         pump_report::<ScancodeSet1>(ctx, "pump-resync:ScancodeSet1 (3-byte words)", 3, 12, 1);
     }
+    ctx.sample_run("set2", &["byte:E0", "byte:00", "byte:1C", "byte:E1", "byte:F0", "byte:FF", "byte:E0", "byte:75"]);
+    ctx.sample_run("set1", &["byte:E1", "byte:E1", "byte:1D", "byte:E0", "byte:5E", "byte:1C"]);
     ctx.sample(json!({"stream": ["E0", "00", "1C"], "check": "E0 00 is an error; afterwards 1C must decode as a fresh decoder would (A Down in Set 2)"}));
     ctx.sample(json!({"stream": ["E1", "F0", "FF", "E0"], "check": "after the error on FF, E0 is a prefix again"}));
     // non-trivial = terminal edges out of non-initial states + all continuation checks; measured as terminal edges
@@ -1135,6 +1145,8 @@ pub fn c19(ctx: &mut Ctx) -> (u64, String) {
     let b = c19_set::<ScancodeSet1>(ctx);
     let c = c19_set::<Keyboard<Echo, ScancodeSet2>>(ctx);
     let d = c19_set::<Keyboard<Echo, ScancodeSet1>>(ctx);
+    ctx.sample_run("set2", &["byte:E0", "byte:70", "byte:E0", "byte:F0", "byte:70", "byte:83", "byte:F0", "byte:83"]);
+    ctx.sample_run("set1", &["byte:60", "byte:E0", "byte:48", "byte:E0", "byte:C8"]);
     ctx.sample(json!({"set": 2, "make": ["E0", "70"], "break": ["E0", "F0", "70"], "check": "Insert Down <=> Insert Up"}));
     ctx.sample(json!({"set": 1, "make": ["60"], "break": ["E0 (prefix)"], "check": "0x60/0x61 must not be keys: their break bytes are the prefixes"}));
     (
